@@ -148,6 +148,8 @@ def err_reaches_exit(ctx):
     relays = {r.fn_of(x).name for x in r.relays()}
     # the engine entry: local async fn awaited in main's block that reaches a relay
     eng = [a for a in awaits(ma) if a.callee in f.bodies and relays & f.cg.reach([a.callee], cross_spawn=False)]
+    # with helpers spliced in, nested awaits (run -> execute_once) are visible too: the engine entry is the outermost one (it dominates the others)
+    eng = [a for a in eng if not any(b is not a and ma.dominates(b.into_bb, a.into_bb) and a.into_bb in (ma.reach_from(b.into_bb) - (ma.reach_from(b.ready_bb) if b.ready_bb is not None else set())) for b in eng)]
     ctx.need(len(eng) == 1, f"await of the engine entry point in main (found {len(eng)})")
     eng = eng[0]
     # shutdown: awaited local async fn that reaches a send of TerminationMessage
@@ -224,14 +226,11 @@ def terminate_all(ctx):
                     joined = True
                     ctx.check(sends_first, f"{short(b.name)}/join-after-terminate", [site(b, a.into_bb)], "the actors are joined before (or without) being told to terminate: shutdown hangs")
     ctx.check(joined, "join-all", [], "shutdown does not await the actors' join handles: zinoma can exit while processes are still being killed")
-    # every launch stores the join handle
-    for L in r.launchers():
-        for (cb, bb, t) in r.callers_of(L):
-            d = t["dest"]["local"]
-            fl = cb.prov.flows_forward(d)
-            pushed = [x for x, tt in cb.calls() if re.search(r"Vec::<.*JoinHandle<\(\)>.*>::push$", callee_decl(tt)) and operand_local(tt["args"][1]) in fl and x in (cb.reach_from(bb))]
-            ok = bool(pushed) and all(_reaches_all_returns_through(cb, bb, pushed, ok_only=True))
-            ctx.check(bool(pushed), f"{short(cb.name)}/join-handle-stored", [site(cb, x) for x in pushed] or [site(cb, bb)], "the join handle of a launched actor is not stored: shutdown would not wait for it")
+    # every launch stores the join handle: the result of task::spawn(actor run) flows into a push on the join-handle vector
+    for (L, bb, t) in r.launch_sites():
+        fl = L.prov.flows_forward(t["dest"]["local"])
+        pushed = [x for x, tt in L.calls() if re.search(r"Vec::<.*JoinHandle<\(\)>.*>::push$", callee_decl(tt)) and len(tt["args"]) > 1 and operand_local(tt["args"][1]) in fl]
+        ctx.check(bool(pushed), f"{short(L.name)}/join-handle-stored@{short(callee_base(t))}", [site(L, x) for x in pushed] or [site(L, bb)], "the join handle of a launched actor is not stored: shutdown would not wait for it")
 
 
 def _reaches_all_returns_through(body, start, through, ok_only=False):
